@@ -76,9 +76,21 @@ def regenerate():
     rep["drift_vs_golden"] = drift
     return rep
 
+BOOST = 1     # exploration multiplier: raised when an anchored source of the property changed since the model was written
+
+def scale(n):
+    return int(n * BOOST)
+
 def build(pid, thorough=False):
     """Returns dict: gen report, which targets built, failing theorems of Properties/<pid>, axioms."""
+    global BOOST
     res = {"pid": pid}
+    try:
+        import anchors
+        res["anchors_changed"] = anchors.changed(REPO, pid)
+    except Exception as e:
+        res["anchors_changed"] = [f"<anchors: {e}>"]
+    BOOST = 3 if res["anchors_changed"] else 1
     with Lock(os.path.join(LEAN, ".build.lock")):
         res["gen"] = regenerate()
         t0 = time.time()
@@ -175,7 +187,8 @@ def proof_coverage(b, extra):
            "trusted_base": TRUSTED_BASE,
            "theorems": b["theorems"], "undischarged": b["failing"], "axioms_used": sorted({a for v in b["axioms"].values() for a in v}),
            "generated_from_repo": b["gen"].get("functions", {}), "untranslatable": b["gen"].get("untranslatable", []),
-           "drift_vs_golden": b["gen"].get("drift_vs_golden", []), "build_s": b.get("build_s")}
+           "drift_vs_golden": b["gen"].get("drift_vs_golden", []), "build_s": b.get("build_s"),
+           "anchored_sources_changed_since_model": b.get("anchors_changed", []), "exploration_multiplier": BOOST}
     if "leanchecker" in b: cov["leanchecker"] = b["leanchecker"]
     cov.update(extra)
     return cov
